@@ -92,6 +92,9 @@ def coarse(entry, outcome):
 def evaluate(scenarios):
     """Run every scenario against the implementation, then the model and the oracle in two batches."""
     obs = vlib.pmap(W.execute, scenarios)
+    broken = [o["machinery_error"] for o in obs if o.get("machinery_error")]
+    if broken:
+        raise vlib.BuildError("scenario construction failed (generator fault): %s" % broken[:3])
     hist, orac, index = [], [], []
     for i, o in enumerate(obs):
         if o.get("error"):
